@@ -50,9 +50,9 @@ theorem phase_upd (hp : Phase y p) (u : LocalUpd p.a e' i o' em dq)
             ∃ l', DirRel o' oR (fwd ++ em) bwd (g'.wlog i) r eof l')
     (hR : ¬ y ∈ dq → ∀ oS fwd bwd w l, DirRel oS o (hd ++ fwd) bwd w (p.ga.rlog i) (p.ga.eof i) l →
             ∃ l', DirRel oS o' fwd (bwd ++ em) w (g'.rlog i) (g'.eof i) l')
-    (hHalf : o.rxq = [] → o.buf = [] → o.recvdSince = 0 → o.senderAlive = true →
+    (hHalf : hd = [] → o.rxq = [] → o.buf = [] → o.recvdSince = 0 → o.senderAlive = true →
             o'.rxq = [] ∧ o'.buf = [] ∧ o'.recvdSince = 0 ∧ o'.senderAlive = true ∧ (∀ m ∈ em, ackOf m = none) ∧
-            g'.rlog i = p.ga.rlog i ∧ g'.eof i = p.ga.eof i)
+            g'.rlog i = p.ga.rlog i ∧ g'.eof i = p.ga.eof i ∧ (¬ y ∈ dq → o.rxOpen = true → o'.rxOpen = true))
     (hcap : o'.cap = o.cap ∧ o'.threshold = o.threshold)
     (hdq : ∀ x ∈ dq, x = y) :
     Phase y { p with a := e', ga := g', ba := ba' } := by
@@ -104,16 +104,16 @@ theorem phase_upd (hp : Phase y p) (u : LocalUpd p.a e' i o' em dq)
   · exact absurd r.ob hnoobj
   · exact absurd r.oa hnoobj
   · -- half-open, `a` is the accepting side
-    obtain ⟨j, oP, rest, l, h1, h2, h3, h4, h5, h6, h7, h8, h9, h10, h11, h12, h13, h14⟩ := r.body
+    obtain ⟨j, oP, rest, l, h1, h2, h3, h4, h5, h6, h7, h8, h9, h10, h11, h12, h13, h14, h15⟩ := r.body
     obtain ⟨hji, honly'⟩ := honly j h3
     subst hji
     have hoP : oP = o := by
       rw [show (ev y p.a p.ga).objs j = objView y p.a j from rfl, hov] at h2; cases h2; rfl
     subst hoP
-    obtain ⟨k1, k2, k3, k4, k5, k6, k7⟩ := hHalf h8 h9 h10 h11
     have hnil := r.fab
     have hd0 : hd = [] := (List.append_eq_nil_iff.mp hnil).1
     have hT0 : fbaT = [] := (List.append_eq_nil_iff.mp hnil).2
+    obtain ⟨k1, k2, k3, k4, k5, k6, k7, k8⟩ := hHalf hd0 h8 h9 h10 h11
     subst hd0
     rw [hwl0] at h12
     obtain ⟨l', hl'⟩ := hS _ _ _ _ _ _ h12
@@ -132,7 +132,11 @@ theorem phase_upd (hp : Phase y p) (u : LocalUpd p.a e' i o' em dq)
       rw [this]
       rw [hrl0] at h13
       rw [hel0] at h14
-      exact ⟨hl', by rw [hrl, k6]; exact h13, by rw [hel, k7]; exact h14⟩
+      refine ⟨hl', by rw [hrl, k6]; exact h13, by rw [hel, k7]; exact h14, ?_⟩
+      intro hnd
+      have hnd0 : ¬ y ∈ p.a.droppedq := hdq2 hnd
+      have hndq : ¬ y ∈ dq := fun hh => hnd (by show y ∈ e'.droppedq; rw [u.dq]; exact List.mem_append_right _ hh)
+      exact k8 hndq (h15 hnd0)
   · -- linked
     obtain ⟨i0, j, oA, oB, h1, h2, h3, h4, h5, h6, h7⟩ := r.body
     obtain ⟨hji, honly'⟩ := honly i0 h5
